@@ -20,17 +20,17 @@ META = {
     "haplotype multisets, permutation count); a case is one (parameters, genotype[, slot]) tuple, non-trivial when "
     "ploidy >= 2; each is enumerated exactly once",
     "bound": {
-        "quick": "P<=5, H<=4, F in 6-value grid (+1 seed-rotated), freqs compositions of 4; assemble U<=8 haplotypes, P<=4",
+        "quick": "P<=5, H<=4, F in 9-value grid {0, 1e-6, 5e-4, 0.004, 0.01, 0.1, 0.5, 0.9, 0.99} (+1 seed-rotated), freqs compositions of 4; assemble U<=8 haplotypes, P<=4",
         "thorough": "P<=8, H<=5, freqs compositions of 8; assemble U<=16, P<=6",
     },
     "assumptions": [
         "reference = textbook multinomial / Dirichlet-multinomial pmf with alpha = f(1-F)/F, written with rising factorials",
-        "float comparison rtol 1e-9 / atol 1e-12",
+        "float comparison rtol 1e-9 / atol 1e-12; for tiny F the log-gamma form cancels large terms, so rtol grows by 8 ulp x |lgamma(sum alpha + ploidy)| (1.3e-8 at F = 1e-6)",
     ],
     "trusted_base": ["python math / fractions", "numba dispatcher semantics (functions are called jitted)"],
 }
 
-F_GRID = [Fraction(0), Fraction(1, 100), Fraction(1, 10), Fraction(1, 2), Fraction(9, 10), Fraction(99, 100)]
+F_GRID = [Fraction(0), Fraction(1, 10 ** 6), Fraction(1, 2000), Fraction(1, 250), Fraction(1, 100), Fraction(1, 10), Fraction(1, 2), Fraction(9, 10), Fraction(99, 100)]
 F_SEED = [Fraction(1, 20), Fraction(3, 10), Fraction(7, 10), Fraction(19, 20), Fraction(1, 3)]
 
 
@@ -84,6 +84,15 @@ def close(a, b, rtol=1e-9, atol=1e-12):
     return abs(a - b) <= atol + rtol * max(abs(a), abs(b))
 
 
+def rt(F, P):
+    """relative tolerance for a pmf evaluated as a difference of log-gammas at dispersion (1-F)/F"""
+    F = float(F)
+    if F <= 0:
+        return 1e-9
+    S = (1 - F) / F + P
+    return 1e-9 + 8 * 2.3e-16 * abs(math.lgamma(S))
+
+
 def run_job(job):
     kind = job[0]
     if kind == "call":
@@ -127,7 +136,7 @@ def job_call(job):
             if P >= 2:
                 r.nontrivial += 1
             r.maxi("prior_abs_err", abs(p - want))
-            if not close(p, want) or (want == 0) != (p == 0):
+            if not close(p, want, rt(F, P)) or (want == 0) != (p == 0):
                 r.violation(
                     "prior|P=%d|H=%d|F=%s|freq=%s|g=%s" % (P, H, F, comp, g),
                     "log_genotype_prior gives %.15g, reference DM/multinomial pmf %.15g" % (p, want),
@@ -136,7 +145,7 @@ def job_call(job):
             total += p
             pord[g] = want / ref.perms(g)
             r.outcome(("p", round(p, 12)))
-        if not close(total, 1.0, 1e-9, 1e-9):
+        if not close(total, 1.0, rt(F, P), 1e-9):
             r.violation(
                 "prior-sum|P=%d|H=%d|F=%s|freq=%s" % (P, H, F, comp),
                 "genotype prior sums to %.15g over all %d unordered genotypes" % (total, len(gens)),
@@ -161,7 +170,7 @@ def job_call(job):
                     if P >= 2:
                         r.nontrivial += 1
                     r.maxi("conditional_abs_err", abs(got - want))
-                    if not close(got, want, 1e-9, 1e-12):
+                    if not close(got, want, rt(F, P), 1e-12):
                         r.violation(
                             "allele-prior|P=%d|H=%d|F=%s|freq=%s|g=%s|k=%d" % (P, H, F, comp, perm, k),
                             "log_genotype_allele_prior gives %.15g, exact conditional of the genotype prior %.15g" % (got, want),
@@ -226,7 +235,7 @@ def job_asm(job):
                     "assemble prior depends on the row order of the genotype: %r" % (vals,),
                     {"kind": "job", "job": job},
                 )
-            if not close(p, want) or not close(p, cp):
+            if not close(p, want, rt(F, P)) or not close(p, cp, rt(F, P)):
                 r.violation(
                     "asm-prior|P=%d|U=%d|F=%s|g=%s" % (P, U, F, g),
                     "assemble prior %.15g, reference flat DM %.15g, calling prior with flat frequencies %.15g" % (p, want, cp),
@@ -234,7 +243,7 @@ def job_asm(job):
                 )
             total += p
             r.outcome(("a", round(p, 12)))
-        if not close(total, 1.0, 1e-9, 1e-9):
+        if not close(total, 1.0, rt(F, P), 1e-9):
             r.violation(
                 "asm-prior-sum|P=%d|U=%d|F=%s" % (P, U, F),
                 "assemble prior sums to %.15g over all %d unordered genotypes" % (total, len(gens)),
